@@ -978,6 +978,13 @@ func instrReaches(fn *ssa.Function, from ssa.Instruction, to ssa.Instruction, ba
 // bigRef renders a *big.Int operand of a content-reading call at instruction `at`: its value term when it is an
 // immutable construction, else its pointer term qualified by the set of mutations that can reach `at` — two reads
 // agree only if they see the same version of the object.
+// versionZeroAt: no mutating big.Int call of this function on the number v can run before the instruction at (the number
+// still is what the caller handed in).
+func (e *Env) versionZeroAt(v ssa.Value, at ssa.Instruction) bool {
+	r := (&Env{P: e.P, Fn: e.Fn}).bigRef(v, at)
+	return !strings.Contains(r, "@v{") || strings.HasSuffix(r, "@v{0}")
+}
+
 func (e *Env) bigRef(v ssa.Value, at ssa.Instruction) string {
 	if p, ok := v.(*ssa.Parameter); ok {
 		if a, pe := e.actual(p); a != nil && e.Call != nil {
